@@ -187,6 +187,10 @@ def gen_cases(tier, rng):
     cases["value_to_int structured long strings"] = ([[5, VS(s)] for s in long], False)
     R = (range(-3, 301), range(-2, 71)) if thorough else (range(-3, 70), range(-2, 20))
     cases["align all (n, a) in a box"] = ([[1, VI(n), VI(a)] for n in R[0] for a in R[1]], True)
+    big = sorted(set([(1 << k) + d for k in (31, 32, 52, 53, 54, 63, 64, 65, 127, 128, 255, 256, 511, 512) for d in (-1, 0, 1, 2)]
+                     + [rng.getrandbits(rng.choice([54, 60, 64, 96, 128, 256, 512])) for _ in range(400 if thorough else 60)]))
+    cases["align large values (up to 2^512)"] = ([[1, VI(n), VI(a)] for n in big for a in
+                                                  (1, 2, 3, 16, 512, 1000, (1 << 20) + 1, 1 << 52, (1 << 60) + 7)], False)
     rr = range(-4, 14) if thorough else range(-3, 9)
     cases["check_range all (x, lo, hi) in a box"] = ([[2, VI(x), VI(lo), VI(hi)] for x in rr for lo in rr for hi in rr]
                                                     + [[2, VI(x), VI(0), VI((1 << b) - 1)] for b in (4, 8, 16, 32) for x in
